@@ -71,6 +71,7 @@ class StoreJudge:
         self.line_no = -1
 
     aliasing = False
+    cancelled_granted_get = False
     def v(self, prop, msg, rule=None):
         if self.aliasing and prop in ("C02", "C06", "C07") : return
         self.viol.append((prop, self.line_no, rule or RULES.get(msg.split()[0], "other"), msg))
@@ -227,6 +228,8 @@ class StoreJudge:
             if not head.startswith("item "):
                 self.v("C02", f"get with granted reservation {tid} by its owner failed: {head}")
                 self.v("C07", f"valid get rejected: {head}")
+                if self.cancelled_granted_get:
+                    self.v("C06", f"cancelling a granted retrieval disturbed another one: get with granted reservation {tid} failed: {head}", "disturbed")
                 t.state = "used"
                 self.c06_on = False
                 return
@@ -282,6 +285,7 @@ class StoreJudge:
                 self.v("C07", f"cancellation of live token {tid} failed: {head}")
                 if t.side == "get": self.c06_on = False
                 return
+            if t.state == "granted" and side == "get": self.cancelled_granted_get = True
             if t.state == "granted" and side == "get" and self.c06_on:
                 s = self.bound.pop(tid, None)
                 if s is not None:
